@@ -215,6 +215,11 @@ HonestIsVerified == (Done /\ sc = Default /\ Provable) => verdict = "Verified"
 
 RECURSIVE SortedSeq(_)
 SortedSeq(S) == IF S = {} THEN <<>> ELSE LET m == CHOOSE m \in S : \A o \in S : m <= o IN <<m>> \o SortedSeq(S \ {m})
+(* After a verified exchange the verifier files an audit record (id, request, presentation) and anchors its hash: the anchor is a function of the record and
+   records that differ in any one of these parts have different anchors; anchors, records and requests survive their CBOR / JSON / binary encodings.  The
+   harness checks this for every fourth verified row. *)
+AuditParts == {"id", "request", "presentation"}
+
 AtomOut(a) == [a EXCEPT !.set = SortedSeq(a.set)]
 StmtOut(s) == [j \in 1..Len(s) |-> AtomOut(s[j])]
 Export == Done => PrintT(<<"REPLAY", ToJson([kind |-> kind, strvals |-> StrVals, numvals |-> NumVals, a0 |-> attrs[0], a8 |-> attrs[8],
